@@ -84,7 +84,7 @@ var ctlKinds = []struct {
 	name string
 	op   byte
 	n    int
-}{{"none", 0, 0}, {"ping0", wsref.OpPing, 0}, {"ping5", wsref.OpPing, 5}, {"pong0", wsref.OpPong, 0}, {"pong5", wsref.OpPong, 5}}
+}{{"none", 0, 0}, {"ping0", wsref.OpPing, 0}, {"ping5", wsref.OpPing, 5}, {"pong0", wsref.OpPong, 0}, {"pong5", wsref.OpPong, 5}, {"ping125", wsref.OpPing, 125}, {"pong125", wsref.OpPong, 125}}
 
 // genSession draws a session from the explorer.
 func genSession(x *engine.X, maxMsgs int, lengths []int, later ...int) *wsSession {
@@ -441,7 +441,7 @@ func C06(tier string) *engine.Report {
 	ures := c06UTF8DFS(tier).Run()
 	tot.Add(ures, rep)
 	rep.Coverage["utf8_family"] = map[string]any{"executions": ures.Executions, "finished": ures.Exhaustive, "violations": len(ures.Violations)}
-	tot.Fill(rep, "sessions generated from choice points (message count, type, 8 payload length classes up to the maximum, fragmentation into <=3 fragments incl. empty ones, ping/pong in any gap, a cut at any byte position or byte-by-byte delivery) "+
+	tot.Fill(rep, "sessions generated from choice points (message count, type, 8 payload length classes up to the maximum, fragmentation into <=3 fragments incl. empty ones, ping/pong (0, 5 or 125 bytes: the largest legal control payload) in any gap, a cut at any byte position or byte-by-byte delivery) "+
 		"x 4 read APIs x inline/deferred completion; all combinations of up to N deviations (fragmentation, control insertion, text type, extra message, each cut) from the default session; "+
 		"non-trivial = the stream was segmented or contained a control frame, or a deviation was taken; plus, over real TCP, every shape of an earlier session on the same Stream (dropped with unread input, queued replies, a failed write) x blocking/async handshake x 0-2 frames sent with the response: the second session delivers exactly what its server sent", d.MaxDeviations)
 	return rep
